@@ -188,6 +188,32 @@ def case_dose_rows(B, cfg):
         sampler = lambda: pm.sample(
             ps.arr(B, th), times, n_samples=ns, seed=3, include_regimen=True)
         n_meas = mm.n_outputs() * len(times) * (ns or 1)
+    elif kind in ('posterior', 'prior', 'pam'):
+        # (documented: the regimen is appended once for all samples)
+        mm = DosedSymMech(B, 2, 1, events)
+        pm = chi.PredictiveModel(mm, chi.GaussianErrorModel())
+        names_ = pm.get_parameter_names()
+        if kind == 'prior':
+            prior = SymPrior(B, 3)
+            orig_ = prior.sample
+
+            def sample_(n=1):
+                r_ = orig_(n)
+                B.assume(r_[0][2] > 0)
+                return r_
+            prior.sample = sample_
+            w = chi.PriorPredictiveModel(pm, prior)
+        else:
+            ds, cells = _posterior_dataset(B, names_, None, 1, 1)
+            for key, v in cells.items():
+                if key[0] == names_[-1]:
+                    B.assume(v > 0)
+            w = chi.PosteriorPredictiveModel(pm, ds)
+            if kind == 'pam':
+                w = chi.PAMPredictiveModel([w, w], [1.0, 1.0])
+        sampler = lambda: w.sample(times, n_samples=ns, seed=3,
+                                   include_regimen=True)
+        n_meas = len(times) * (ns or 1)
     else:
         units = cfg['units']
         D = hier.total_dim(units)
@@ -223,6 +249,20 @@ def case_dose_rows(B, cfg):
     for _, r in dose.iterrows():
         got.setdefault(r['ID'], []).append(
             (r['Time'], r['Duration'], r['Dose']))
+    if kind in ('posterior', 'prior', 'pam'):
+        rows = sorted(((r['Time'], r['Duration'], r['Dose'])
+                       for _, r in dose.iterrows()),
+                      key=lambda r: float(r[0]))
+        B.fact('every dose event up to the last requested time listed once',
+               len(rows) == len(want), '%d vs %d' % (len(rows), len(want)))
+        if len(rows) == len(want):
+            for k, (r, w_) in enumerate(zip(rows, sorted(
+                    want, key=lambda r: float(r[0])))):
+                B.fact('dose %d: time' % k, float(r[0]) == float(w_[0]),
+                       '%r vs %r' % (r[0], w_[0]))
+                B.eq('dose %d: duration' % k, r[1], w_[1])
+                B.eq('dose %d: amount = rate * duration' % k, r[2], w_[2])
+        return
     ids = list(range(1, (ns or 1) + 1))
     B.fact('dose rows carry exactly the sample IDs',
            sorted(got, key=repr) == sorted(ids, key=repr) if want
@@ -622,6 +662,10 @@ def jobs(tier):
             out.append(('dose_rows', 'case_dose_rows', dict(
                 kind='predictive', events=ev, times=[2.5, 1.0], n_samples=ns,
                 n_out=1 + (k % 2)), G))
+        for wk in ('posterior', 'prior', 'pam'):
+            out.append(('dose_rows', 'case_dose_rows', dict(
+                kind=wk, events=ev, times=[[2.5, 1.0], [1.0, 4.0, 2.5]][k % 2],
+                n_samples=1 + (k % 2)), dict(G, max_paths=600)))
         for ns in (1, 2, 3):
             out.append(('dose_rows', 'case_dose_rows', dict(
                 kind='population', events=ev, times=[2.5, 1.0], n_samples=ns,
